@@ -48,12 +48,19 @@ PROPS["C09"] = {
 }
 
 PROPS["C15"] = {
-    "modules": ["SamlVerif.Props.C15"],
+    "modules": ["SamlVerif.Props.C15", "SamlVerif.Proofs.Time"],
     "trusted_base": ["modelled, not verified: Go's regexp engine (the two duration regexps are replaced by a deterministic recogniser, tied by correspondence), "
-                     "strconv, and the time package's calendar (parameter of the instant theorems)"],
-    "assumptions": ["Go int64 arithmetic wraps modulo 2^64 (language specification)"],
+                     "strconv; Go's time package is an implementation of the proleptic Gregorian calendar, which the model computes by the era / day-of-era decomposition "
+                     "(the inverse and the validity of every computed date are proved: one kernel computation over the 146097 days of an era, 366 days of a year)",
+                     "metadata marshal/unmarshal symmetry (encoding/xml over the alias structs) is NOT modelled: generated and library-published EntityDescriptor values are checked by the direct oracle only (testing)"],
+    "assumptions": ["Go int64 arithmetic wraps modulo 2^64 (language specification)",
+                    "instants: the rounded instant lies in a year of at most four digits (the excluded half millisecond at the end of 9999 is the known finding c15-year-10000-rounding, with a counterexample theorem)"],
     "rule": "durations: boundary classes exhaustively (each sub-second digit count, carries at 60 s / 60 min, negatives, +-1 around every unit, MinInt64/MaxInt64) "
-            "+ random int64; duration strings: fixed list of documented/undocumented forms + grammar-generated + single-position mutations",
+            "+ random int64; duration strings: fixed list of documented/undocumented forms + grammar-generated + single-position mutations; "
+            "instants: 31 years around era/century/leap borders x 9 month-days x 3 clock times x 12 nanosecond values around the rounding boundary + random instants in years 1..9999 with random zones (MarshalText vs model, read-back oracle); "
+            "instant strings: 47 listed valid/invalid forms + generated forms in 7 lexical styles with single-position mutations (UnmarshalText vs model); "
+            "metadata: generated EntityDescriptor values (SP/IdP descriptors, endpoints incl. unknown bindings, key descriptors, validity, cache duration, organisation) and the library's own sp.Metadata()/idp.Metadata() "
+            "through two marshal/unmarshal generations (direct oracle: fixed point, preservation, equality)",
 }
 
 XMLENC_TB = ["modelled, not verified: AES/DES/RSA/GCM primitives (abstract Block/Aead/rsaDec parameters of the theorems; in the correspondence they are "
@@ -243,7 +250,8 @@ NOTES = {
            "character data (NameID, attribute values) is proved for every XML character.",
     "C09": "Partial: totality of the library's own logic after parsing, and the inflate bound, are proved; termination/allocation of third-party parsers on arbitrary bytes is only sampled.",
     "C10": "Partial: C10_all_offered is proved for every offered combination except AES-GCM encryption (known findings gcm-encrypt-*; counterexample theorem).",
-    "C15": "Partial: theorems cover Duration (every int64). RelaxedTime and the metadata fixpoint are exercised by C02/C07 generators but have no theorem.",
+    "C15": "Durations (every int64) and instants (every instant whose rounded year has at most four digits, with the calendar inverse proved) are theorems; "
+           "the metadata fixed point is checked by a direct oracle on generated and library-published values only (testing, no model of encoding/xml).",
     "C19": "'Exactly one HTTP reply' is by construction in the model and measured on the real server.",
     "C20": "Race- and deadlock-freedom are proved for any number of threads running the lock programs regenerated from the source; the Go memory model and scheduler are not modelled (sampled under -race).",
 }
